@@ -1,4 +1,5 @@
 import ScrapliModel.Lemmas.Close
+import ScrapliModel.Close.AsIs
 /-!
 # C07 — Close always completes: no panic, deadlock, leaked goroutine or data race
 
@@ -90,5 +91,83 @@ theorem canonical_executions_complete :
   decide +kernel
 
 example (s : St) (hs : s ∈ inits) : Exec s (greedyTrace 80 s) (greedy 80 s) := greedy_exec 80 s
+
+/-! ### the unrepaired skeleton fails
+
+`ScrapliModel/Close/AsIs.lean` is the skeleton of the code before fix-1 … fix-5. Each theorem
+exhibits one schedule (the list says which process moves and which alternative it takes) on which it
+violates the property; each was also observed on the real unrepaired code by the forced-schedule
+harness. (These are existence statements, so one kernel-evaluated schedule is a proof.) -/
+
+section Unrepaired
+open AsIs
+
+private def ks (n : Nat) : Sched := List.replicate n (AsIs.Proc.K, 0)
+private def rs (n : Nat) : Sched := List.replicate n (AsIs.Proc.R, 0)
+
+/-- F3: a second `Close` panics with "close of closed channel" (`close(c.Errs)`) -/
+theorem double_close_panics :
+    ∃ sch, (exec (AsIs.mkInit false .eofOnClose true false) sch).map (·.panic) = some .closeOfClosed :=
+  ⟨ks 7, by decide⟩
+
+/-- F4: `Close` while the read loop is blocked handing over a transport error: the *read loop*
+panics with "send on closed channel" -/
+theorem close_after_idle_error_panics_in_reader :
+    ∃ sch, (exec (AsIs.mkInit false .eofOnClose false false) sch).map (·.panic) = some .sendOnClosed :=
+  ⟨[(.E, 2)] ++ rs 5 ++ ks 2 ++ rs 1, by decide⟩
+
+/-- F4, race window: the read loop has passed its `done` test and is about to send when `Close`
+closes `Errs` -/
+theorem close_races_error_send :
+    ∃ sch s, exec (AsIs.mkInit false .eofOnClose false false) sch = some s ∧ s.r = .send
+      ∧ (exec s (ks 2 ++ rs 1)).map (·.panic) = some .sendOnClosed :=
+  ⟨[(.E, 2)] ++ rs 4, _, rfl, by decide, by decide⟩
+
+/-- F6: the plain bool `readLoopExited` is stored by the read loop's exit while `Channel.Read`
+is about to load it -/
+theorem readLoopExited_race :
+    ∃ sch, (exec (AsIs.mkInit false .eofOnClose false true) sch).map AsIs.race = some true :=
+  ⟨[(.E, 1)] ++ rs 4 ++ [(.O, 0), (.O, 0)], by decide⟩
+
+/-- F5: NETCONF `Close` after the peer closed the stream never returns (nobody receives
+`d.done <- true`: the NETCONF read loop is stuck in `d.errs <- err`) -/
+theorem netconf_close_hangs_after_eof :
+    ∃ sch, (exec (AsIs.mkInit true .eofOnClose false false) sch).map closeHung = some true :=
+  ⟨[(.E, 1)] ++ rs 5 ++ [(.N, 0), (.N, 0), (.N, 0)] ++ ks 2, by decide⟩
+
+/-- F5: a second NETCONF `Close` never returns (the NETCONF read loop is gone) -/
+theorem netconf_double_close_hangs :
+    ∃ sch, (exec (AsIs.mkInit true .eofOnClose true false) sch).map closeHung = some true :=
+  ⟨ks 2 ++ [(.N, 0)] ++ ks 7 ++ rs 5 ++ [(.S, 0), (.E, 0)], by decide⟩
+
+/-- new finding: when the read loop exits on its own (EOF) between `Close`'s test of
+`readLoopExited` and the sender goroutine's `c.done <- …`, that goroutine is leaked forever,
+although the transport's read does unblock on close -/
+theorem close_leaks_sender_goroutine :
+    ∃ sch, (exec (AsIs.mkInit false .eofOnClose false false) sch).map leaked = some true :=
+  ⟨ks 3 ++ [(.E, 1)] ++ rs 5 ++ [(.S, 0)] ++ ks 2, by decide⟩
+
+/-- schedules are executions: what `exec` reaches is reachable in the transition system -/
+theorem exec_reach (s s' : AsIs.St) (sch : Sched) (h : exec s sch = some s') : AsIs.Reach s s' := by
+  induction sch generalizing s with
+  | nil => simp [exec] at h; subst h; exact .refl s
+  | cons c rest ih =>
+    obtain ⟨p, i⟩ := c
+    simp only [exec] at h
+    split at h
+    · rename_i s₁ heq
+      have hm : s₁ ∈ AsIs.stepP p s := List.mem_of_getElem? heq
+      have hn : s₁ ∈ AsIs.next s := by
+        unfold AsIs.stepP at hm
+        unfold AsIs.next
+        split at hm
+        · simp at hm
+        · rename_i hp
+          simp only [hp, ↓reduceIte, List.mem_append]
+          cases p <;> simp_all
+      exact .step s s₁ s' hn (ih s₁ h)
+    · simp at h
+
+end Unrepaired
 
 end Scrapli.Close.C07
